@@ -4,6 +4,7 @@ import (
 	"context"
 	"errors"
 	"fmt"
+	"strings"
 	"sync/atomic"
 	"testing"
 	"time"
@@ -35,9 +36,9 @@ func TestC10(t *testing.T) {
 		if rr.Err != nil || rr.RootMissing || len(rr.Loads) < 3 {
 			continue
 		}
-		point := []string{"queued", "running", "paused", "after-message"}[r.Intn(4)]
+		point := []string{"queued", "running", "paused", "after-message", "completing-send"}[r.Intn(5)]
 		attack := []string{"cancel", "update-plain", "update-unpause", "update-bad", "new-same-root", "new-other-root"}[r.Intn(6)]
-		other := gen.GenDAG(r, gen.DagOpts{MinBlocks: 3, MaxBlocks: 8, Salt: fmt.Sprintf("c10o-%d", ci)})
+		other := gen.GenDAG(r, gen.DagOpts{MinBlocks: 3, MaxBlocks: 8, Salt: fmt.Sprintf("c10o-%d", ci), Chain: true}) // a chain: its full traversal stays small
 		rep.Journal("case %d point=%s attack=%s loads=%d", ci, point, attack, len(rr.Loads))
 		w := NewWorld()
 		pert := NewPerturber(c.PertSeed, 1)
@@ -175,6 +176,23 @@ func TestC10(t *testing.T) {
 				_ = S.GS.Unpause(ctx, id)
 				cancel()
 			}
+		case "completing-send":
+			// the connection to A accepts nothing: the traversal finishes, everything including the final
+			// status is queued, the response waits for its last message to go out
+			w.Fab.Link(S.ID, A.ID).Stall()
+			_ = RawSend(A, S.ID, NewReq(id, c.DAG.Root, c.Sel))
+			if ok, why := w.Quiesce(); !ok {
+				inc = why
+			}
+			if st := S.Impl.PeerState(A.ID).IncomingState.RequestStates[id]; st != graphsync.CompletingSend {
+				pausedAt = -2 // state not reached (recorded in the detail)
+			}
+			strike()
+			atomic.StoreInt32(&struckFlag, 1)
+			if ok, why := w.Quiesce(); !ok {
+				inc = why
+			}
+			w.Fab.Link(S.ID, A.ID).Unstall()
 		case "after-message":
 			j := 1 + r.Intn(4)
 			n := 0
@@ -241,6 +259,26 @@ func TestC10(t *testing.T) {
 			}
 			if sig == "" && (comp != 1 || canc != 0 || compStatus != v.Terminal) {
 				rep.Violation(ci, "C10/victim-notifications-changed", fmt.Sprintf("outcome notifications for A's response: completed=%d (status %s, wire %s) cancelled=%d after X sent %s while %s", comp, compStatus, v.Terminal, canc, attack, point), detail())
+			}
+			// once A's response has ended the responder holds nothing for it any more: no entry under A in the
+			// reported request states, and the connection protection taken for A's request is released
+			if sig == "" {
+				left := ""
+				_, unstable := w.ConfirmStable(func() string {
+					left = ""
+					if st, ok := S.Impl.PeerState(A.ID).IncomingState.RequestStates[id]; ok {
+						left = fmt.Sprintf("A's request is still listed in state %s", st)
+					}
+					for tag, n := range S.Net.CM.Outstanding() {
+						if n != 0 && strings.HasPrefix(tag, string(A.ID)+"|") && strings.HasSuffix(tag, id.String()) {
+							left = fmt.Sprintf("the connection protection for A's request is still held (%d)", n)
+						}
+					}
+					return left
+				}, time.Second)
+				if unstable == "" && left != "" {
+					rep.Violation(ci, "C10/victim-response-state-left-behind", fmt.Sprintf("after X sent %s while A's response was %s and A's response had ended: %s", attack, point, left), detail())
+				}
 			}
 			if atomic.LoadInt32(&struckFlag) == 1 {
 				rep.Nontrivial(rt.Key(c.DAG.Root, SelJSON(c.Sel), point, attack, ci))
